@@ -131,6 +131,22 @@ def run_batch(check, tier, seed, runs, workers, wall, digests=False, scratch=Non
     return agg, herrs
 
 
+def parallel_jobs(jobs, width, timeout=1200):
+    """Run worker jobs [(job, hashseed)] at most `width` at a time; returns [(result, err)] in order."""
+    out = [None] * len(jobs)
+    pending = list(enumerate(jobs))
+    running = []
+    while pending or running:
+        while pending and len(running) < width:
+            i, (job, hsd) = pending.pop(0)
+            d = tempfile.mkdtemp(prefix="ksim_")
+            running.append((i, d, spawn(job, hsd, d)))
+        i, d, p = running.pop(0)
+        out[i] = collect(p, timeout)
+        shutil.rmtree(d, ignore_errors=True)
+    return out
+
+
 def one_shot(job, hashseed, timeout=900):
     d = tempfile.mkdtemp(prefix="ksim_")
     try:
@@ -259,28 +275,35 @@ def cmd_check(check, tier, args):
         k = (v["case"]["machine"],) + tuple((v["violation"]["property"], v["violation"]["oracle"], v["violation"]["observable"]))
         by_class.setdefault(k, []).append(v)
     n_shrunk = 0
+    rdir = os.environ.get("KSIM_REPLAY_DIR") or os.path.join(VERIF, "replays")
+    todo = []
+    per_class = 3 if tier == "quick" else 6
     for k, vs in sorted(by_class.items()):
-        for v in vs[: (4 if tier == "quick" else 8)]:
-            path = os.path.join(os.environ.get("KSIM_REPLAY_DIR") or os.path.join(VERIF, "replays"), check, "%d.json" % v["seed"])
-            r, err = one_shot({"mode": "shrink", "case": v["case"], "klass": list(k[1:]), "path": path, "check": check,
-                               "hashseed": v["hashseed"], "max_runs": 400}, v["hashseed"])
-            n_shrunk += 1
-            if r is None or r["violation"] is None:
-                print("HARNESS-ERROR violation of run %d (seed %d) did not reproduce in a fresh process (non-deterministic): %s" % (v["idx"], v["seed"], err))
-                return 3
-            rr, err = one_shot({"mode": "replay", "path": path}, v["hashseed"])
-            if rr is None or rr["violation"] is None or rr["digest"] != r["digest"]:
-                print("HARNESS-ERROR replay of %s does not reproduce the minimised violation exactly" % path)
-                return 3
-            e = match_finding(findings, check, r.get("fingerprint"))
-            if e is not None:
-                known_hits[e["id"]] = known_hits.get(e["id"], 0) + 1
-                try:
-                    os.remove(path)
-                except OSError:
-                    pass
-            else:
-                new_viol.append((v, r, path))
+        for v in vs[:per_class]:
+            todo.append((k, v, os.path.join(rdir, check, "%d.json" % v["seed"])))
+    todo = todo[:32]
+    # shrink in parallel (each in a fresh interpreter with the hash seed of the failing run), then replay each file
+    shr = parallel_jobs([({"mode": "shrink", "case": v["case"], "klass": list(k[1:]), "path": path, "check": check,
+                           "hashseed": v["hashseed"], "max_runs": 400}, v["hashseed"]) for k, v, path in todo], workers)
+    for (k, v, path), (r, err) in zip(todo, shr):
+        n_shrunk += 1
+        if r is None or r["violation"] is None:
+            print("HARNESS-ERROR violation of run %d (seed %d) did not reproduce in a fresh process (non-deterministic): %s" % (v["idx"], v["seed"], err))
+            return 3
+    rep = parallel_jobs([({"mode": "replay", "path": path}, v["hashseed"]) for k, v, path in todo], workers)
+    for (k, v, path), (r, err), (rr, err2) in zip(todo, shr, rep):
+        if rr is None or rr["violation"] is None or rr["digest"] != r["digest"]:
+            print("HARNESS-ERROR replay of %s does not reproduce the minimised violation exactly" % path)
+            return 3
+        e = match_finding(findings, check, r.get("fingerprint"))
+        if e is not None:
+            known_hits[e["id"]] = known_hits.get(e["id"], 0) + 1
+            try:
+                os.remove(path)
+            except OSError:
+                pass
+        else:
+            new_viol.append((v, r, path))
     for e in findings:
         if e["id"] in known_hits:
             print("KNOWN-FINDING: property=%s %s [%s; hit %d time(s) in this run]" % (check, e["what"], e["id"], known_hits[e["id"]]))
